@@ -1283,10 +1283,17 @@ class Explorer:
         self.inputs.append((name, "bool", b))
         return b
 
-    def sym_bytes(self, name, n, kind="bytes"):
+    def sym_bytes(self, name, n, kind="bytes", wide=False):
+        """n symbolic bytes.  wide=True: one 8n-bit variable sliced into bytes (better for opaque values such as
+        hashes that are only moved and compared as a whole)"""
         from .seq import mk_seq, SymSeq
         items = []
-        for i in range(n):
+        if wide and n > 1:
+            whole = z3.BitVec(name, 8 * n)
+            for i in range(n):
+                hi = 8 * (n - i) - 1
+                items.append(SymInt(z3.ZeroExt(1, z3.Extract(hi, hi - 7, whole)), 0, 255))
+        for i in range(n if not (wide and n > 1) else 0):
             e = z3.BitVec("%s[%d]" % (name, i), 8)
             items.append(SymInt(z3.ZeroExt(1, e), 0, 255))
         s = SymSeq(kind, items) if n else mk_seq(kind, [])
@@ -1429,7 +1436,7 @@ class ConcreteCtx:
     def sym_bool(self, name):
         return bool(self._get(name))
 
-    def sym_bytes(self, name, n, kind="bytes"):
+    def sym_bytes(self, name, n, kind="bytes", wide=False):
         v = self._get(name)
         if len(v) != n:
             raise AssumeFailed("input %s has wrong length" % name)
@@ -1502,7 +1509,7 @@ class RandomCtx(ConcreteCtx):
     def sym_bool(self, name):
         return self._rec(name, self.rnd.random() < 0.5)
 
-    def sym_bytes(self, name, n, kind="bytes"):
+    def sym_bytes(self, name, n, kind="bytes", wide=False):
         r = self.rnd
         mode = r.random()
         if mode < 0.1:
